@@ -57,23 +57,52 @@ func vpC10Lens() []int {
 	return l
 }
 
+// vpOneCall performs one XORKeyStream call on msg[pos:pos+n] in one of four
+// buffer arrangements and returns the output bytes.
+func vpOneCall(s *CFB8, msg []byte, pos, n int) []byte {
+	var dst, src []byte
+	switch vp.Choice(4) {
+	case 0: // in place
+		src = append([]byte{}, msg[pos:pos+n]...)
+		dst = src
+	case 1: // separate, dst allocated after src
+		src = append([]byte{}, msg[pos:pos+n]...)
+		dst = make([]byte, n)
+	case 2: // separate, dst allocated before src
+		dst = make([]byte, n)
+		src = append([]byte{}, msg[pos:pos+n]...)
+	default: // dst larger than src
+		src = append([]byte{}, msg[pos:pos+n]...)
+		dst = make([]byte, n+5)
+	}
+	s.XORKeyStream(dst, src)
+	return dst[:n]
+}
+
+func vpNewStream(decrypt bool, iv []byte) *CFB8 {
+	if decrypt {
+		return NewCFB8Decrypt(vpBlock{}, iv)
+	}
+	return NewCFB8Encrypt(vpBlock{}, iv)
+}
+
 // any division of the message over successive XORKeyStream calls, each in
 // place or into a separate buffer (allocated before or after the source, or
 // larger than it), equals the byte-at-a-time reference.
+// quick: boundary lengths, 2 calls, every split. thorough: every T <= 50 with
+// 2 calls at every split, and the boundary lengths with 3 calls.
 func vpRun(decrypt bool) {
 	vpSetupNative()
 	lens := vpC10Lens()
+	calls := 2
+	if vp.Tier() == 1 && vp.Choice(2) == 1 {
+		lens, calls = []int{0, 1, 2, 15, 16, 17, 31, 32, 33, 34, 35, 48, 49}, 3
+	}
 	T := lens[vp.Choice(len(lens))]
 	iv := vp.Bytes(16)
 	msg := vp.Bytes(T)
 	want := vpRefCFB8(iv, msg, decrypt)
-	var s *CFB8
-	if decrypt {
-		s = NewCFB8Decrypt(vpBlock{}, iv)
-	} else {
-		s = NewCFB8Encrypt(vpBlock{}, iv)
-	}
-	calls := 2 + vp.Tier()
+	s := vpNewStream(decrypt, iv)
 	got := make([]byte, 0, T)
 	pos := 0
 	for c := 0; c < calls; c++ {
@@ -81,31 +110,48 @@ func vpRun(decrypt bool) {
 		if c < calls-1 {
 			n = vp.Choice(T - pos + 1)
 		}
-		var dst, src []byte
-		switch vp.Choice(4) {
-		case 0: // in place
-			src = append([]byte{}, msg[pos:pos+n]...)
-			dst = src
-		case 1: // separate, dst allocated after src
-			src = append([]byte{}, msg[pos:pos+n]...)
-			dst = make([]byte, n)
-		case 2: // separate, dst allocated before src
-			dst = make([]byte, n)
-			src = append([]byte{}, msg[pos:pos+n]...)
-		default: // dst larger than src
-			src = append([]byte{}, msg[pos:pos+n]...)
-			dst = make([]byte, n+5)
-		}
-		s.XORKeyStream(dst, src)
-		got = append(got, dst[:n]...)
+		got = append(got, vpOneCall(s, msg, pos, n)...)
 		pos += n
 	}
 	vp.Assert(len(got) == T, "all bytes processed")
+	if !vp.Symbolic() || T == 0 {
+		vp.Observe("len", len(got)) // output bytes depend on the uninterpreted E
+	}
 	for i := range want {
 		vp.Assert(got[i] == want[i], "output == byte-at-a-time reference")
 	}
 	vp.Cover("end")
 }
+
+// longer messages and histories: total lengths beyond several ring-buffer
+// wraps (65..161 bytes) over three calls whose boundaries come from a fixed
+// list (block multiples +-1, 64, 128, 129, 130).
+func vpRunLong(decrypt bool) {
+	vpSetupNative()
+	cuts := []int{0, 1, 16, 17, 31, 32, 33, 63, 64, 65, 100, 128, 129, 130, 160, 161}
+	if vp.Tier() == 0 {
+		cuts = []int{0, 1, 33, 64, 65, 129, 130, 161}
+	}
+	a := cuts[vp.Choice(len(cuts))]
+	b := cuts[vp.Choice(len(cuts))]
+	c := cuts[vp.Choice(len(cuts))]
+	vp.Assume(a <= b && b <= c && c >= 64)
+	iv := vp.Bytes(16)
+	msg := vp.Bytes(c)
+	want := vpRefCFB8(iv, msg, decrypt)
+	s := vpNewStream(decrypt, iv)
+	var got []byte
+	got = append(got, vpOneCall(s, msg, 0, a)...)
+	got = append(got, vpOneCall(s, msg, a, b-a)...)
+	got = append(got, vpOneCall(s, msg, b, c-b)...)
+	for i := range want {
+		vp.Assert(got[i] == want[i], "output == byte-at-a-time reference")
+	}
+	vp.Cover("end")
+}
+
+func VP_C10_enc_long() { vpRunLong(false) }
+func VP_C10_dec_long() { vpRunLong(true) }
 
 func VP_C10_enc() { vpRun(false) }
 func VP_C10_dec() { vpRun(true) }
